@@ -150,6 +150,7 @@ type Case struct {
 // Violate records a refutation. sig must be stable across runs for the same
 // defect (it is what KNOWN_FINDINGS.txt lists); detail is the witness.
 func (c *Case) Violate(sig, format string, a ...interface{}) {
+	sig = strings.Join(strings.Fields(sig), "_") // a signature is one token on the VIOLATION line
 	c.mu.Lock()
 	defer c.mu.Unlock()
 	for _, v := range c.viol {
